@@ -175,3 +175,151 @@ Theorem unknown_item :
 Proof. exact CssVariants.unknown_item. Qed.
 Print Assumptions unknown_item.
 
+
+(* string literals (Proofs/StringTokens.v): a quoted string with escapes is one token whatever
+   it contains; values and skipped statements treat it as an atom, so at-rules and unknown
+   declarations holding such literals are insignificant as a whole *)
+From H2T Require Import Base Tagged Wrap Sub Css Dom Render Api CssParse Proofs.CssTotal Proofs.WrapInv Proofs.RenderWidth Proofs.Conserve Proofs.Footnotes Proofs.AnnBalance Proofs.RenderConserve Proofs.OptionRel Proofs.Compose Proofs.RenderTotal Proofs.FragStream Proofs.SimRel Proofs.Prune Proofs.StringTokens.
+
+Theorem parse_string_token_lit :
+  forall (q : N) (items : list sitem) (rest : list chr),
+       quote_okb q = true ->
+       items_okb q items = true -> parse_string_token (lit q items ++ rest) = POk (TString (body items)) rest.
+Proof. exact StringTokens.parse_string_token_lit. Qed.
+Print Assumptions parse_string_token_lit.
+
+Theorem parse_string_token_eof :
+  forall (q : N) (items : list sitem),
+       quote_okb q = true ->
+       items_okb q items = true -> parse_string_token (mk q 1 :: inner items) = POk (TString (body items)) [].
+Proof. exact StringTokens.parse_string_token_eof. Qed.
+Print Assumptions parse_string_token_eof.
+
+Theorem parse_string_token_newline :
+  forall (q : N) (items : list sitem) (rest : list chr),
+       quote_okb q = true ->
+       items_okb q items = true ->
+       parse_string_token (mk q 1 :: inner items ++ mk 10 1 :: rest) =
+       POk (TBadString (body items)) (mk 10 1 :: rest).
+Proof. exact StringTokens.parse_string_token_newline. Qed.
+Print Assumptions parse_string_token_newline.
+
+Theorem parse_token_lit :
+  forall (w : text) (q : N) (items : list sitem) (R : list chr),
+       CssRoundTrip.wsm w ->
+       quote_okb q = true ->
+       items_okb q items = true -> parse_token (w ++ lit q items ++ R) = POk (TString (body items)) R.
+Proof. exact StringTokens.parse_token_lit. Qed.
+Print Assumptions parse_token_lit.
+
+Theorem value_toks_f_lit_step :
+  forall (f d : nat) (w : text) (q : N) (items : list sitem) (post : list chr) (acc : list token),
+       CssRoundTrip.wsm w ->
+       quote_okb q = true ->
+       items_okb q items = true ->
+       value_toks_f (S f) d (w ++ lit q items ++ post) acc =
+       value_toks_f f d post (TString (body items) :: acc).
+Proof. exact StringTokens.value_toks_f_lit_step. Qed.
+Print Assumptions value_toks_f_lit_step.
+
+Theorem value_toks_xatoms :
+  forall (l : xatoms) (K : text),
+       xatoms_ok l ->
+       forallb (fun wx : text * xatom => xvatom (snd wx)) l = true ->
+       xvdepth l 0 = true ->
+       xchain l = true -> CssVariants.vend K -> value_toks (print_xatoms l ++ K) = POk (xtoks_of l) K.
+Proof. exact StringTokens.value_toks_xatoms. Qed.
+Print Assumptions value_toks_xatoms.
+
+Theorem parse_declaration_xitem :
+  forall (i : xditem) (K : text),
+       xditem_ok i -> CssVariants.vend K -> parse_declaration (print_xditem i ++ K) = POk (xitem_decl i) K.
+Proof. exact StringTokens.parse_declaration_xitem. Qed.
+Print Assumptions parse_declaration_xitem.
+
+Theorem unknown_xitem :
+  forall i : xditem,
+       CssVariants.known_name (map CssVariants.lowerN (xdi_name i)) = false ->
+       CssVariants.is_unknown (xitem_decl i) = true.
+Proof. exact StringTokens.unknown_xitem. Qed.
+Print Assumptions unknown_xitem.
+
+Theorem skip_stmt_lit_step :
+  forall (f : nat) (w : text) (q : N) (items : list sitem) (post : list chr) (stack : list N),
+       CssRoundTrip.wsm w ->
+       quote_okb q = true ->
+       items_okb q items = true -> skip_stmt (S f) (w ++ lit q items ++ post) stack = skip_stmt f post stack.
+Proof. exact StringTokens.skip_stmt_lit_step. Qed.
+Print Assumptions skip_stmt_lit_step.
+
+Theorem skip_to_end_xatoms :
+  forall (l : xatoms) (rest : list chr),
+       xatoms_ok l ->
+       xchain l = true -> xcomplete l -> skip_to_end_of_statement (print_xatoms l ++ rest) = POk tt rest.
+Proof. exact StringTokens.skip_to_end_xatoms. Qed.
+Print Assumptions skip_to_end_xatoms.
+
+Theorem junk_at_rule_x :
+  forall (nm : list N) (l : xatoms),
+       CssVariants.name_okb nm = true ->
+       xatoms_ok l ->
+       xchain l = true -> xcomplete l -> xat_follow l = true -> CssVariants.junk_ok (print_xat nm l).
+Proof. exact StringTokens.junk_at_rule_x. Qed.
+Print Assumptions junk_at_rule_x.
+
+Theorem junk_insert_insignificant :
+  forall (lead : text) (pre post : list CssVariants.vstmt) (j w : text),
+       CssRoundTrip.wsm lead ->
+       CssVariants.vsheet_ok (pre ++ post) ->
+       CssVariants.junk_ok j ->
+       CssRoundTrip.wsm w ->
+       parse_css_rules (lead ++ CssVariants.print_vsheet (pre ++ CssVariants.VJunk j w :: post)) =
+       parse_css_rules (lead ++ CssVariants.print_vsheet (pre ++ post)).
+Proof. exact StringTokens.junk_insert_insignificant. Qed.
+Print Assumptions junk_insert_insignificant.
+
+Theorem at_rule_with_literals_insignificant :
+  forall (lead : text) (pre post : list CssVariants.vstmt) (nm : list N) (l : xatoms) (w : text),
+       CssRoundTrip.wsm lead ->
+       CssVariants.vsheet_ok (pre ++ post) ->
+       CssRoundTrip.wsm w ->
+       CssVariants.name_okb nm = true ->
+       xatoms_ok l ->
+       xchain l = true ->
+       xcomplete l ->
+       xat_follow l = true ->
+       parse_css_rules
+         (lead ++ CssVariants.print_vsheet (pre ++ CssVariants.VJunk (print_xat nm l) w :: post)) =
+       parse_css_rules (lead ++ CssVariants.print_vsheet (pre ++ post)).
+Proof. exact StringTokens.at_rule_with_literals_insignificant. Qed.
+Print Assumptions at_rule_with_literals_insignificant.
+
+Theorem xvariant_rules :
+  forall (lead : text) (ss : list xvstmt),
+       CssRoundTrip.wsm lead ->
+       xvsheet_ok ss ->
+       parse_css_rules (lead ++ print_xvsheet ss) = CssOk (CssVariants.rules_of (xvsheet_meaning ss)).
+Proof. exact StringTokens.xvariant_rules. Qed.
+Print Assumptions xvariant_rules.
+
+Theorem xvariants_agree :
+  forall (lead1 : text) (ss1 : list xvstmt) (lead2 : text) (ss2 : list xvstmt),
+       CssRoundTrip.wsm lead1 ->
+       xvsheet_ok ss1 ->
+       CssRoundTrip.wsm lead2 ->
+       xvsheet_ok ss2 ->
+       xvsheet_meaning ss1 = xvsheet_meaning ss2 ->
+       parse_css_rules (lead1 ++ print_xvsheet ss1) = parse_css_rules (lead2 ++ print_xvsheet ss2).
+Proof. exact StringTokens.xvariants_agree. Qed.
+Print Assumptions xvariants_agree.
+
+Theorem xvariant_agrees_with_variant :
+  forall (lead1 : text) (ss1 : list xvstmt) (lead2 : text) (ss2 : list CssVariants.vstmt),
+       CssRoundTrip.wsm lead1 ->
+       xvsheet_ok ss1 ->
+       CssRoundTrip.wsm lead2 ->
+       CssVariants.vsheet_ok ss2 ->
+       xvsheet_meaning ss1 = CssVariants.vsheet_meaning ss2 ->
+       parse_css_rules (lead1 ++ print_xvsheet ss1) = parse_css_rules (lead2 ++ CssVariants.print_vsheet ss2).
+Proof. exact StringTokens.xvariant_agrees_with_variant. Qed.
+Print Assumptions xvariant_agrees_with_variant.
